@@ -14,6 +14,8 @@ for d in sorted(glob.glob("/verif/seeded/C*-*")):
                 res = "%s: VIOLATION %s%s" % (t, os.path.basename(v[0][1]), " (no-failing-input-found)" if "no-failing" in v[0][2] else " (concrete replay)")
                 break
             res = "%s: not reported" % t
+    if not res:
+        res = "not run (filed at the end of the session)"
     note = m.get("strengthened", "")
     rows.append("| %s | %s | %s | %s |" % (os.path.basename(d), m.get("change", "?"), res, note))
 print("| seeded change | what it does | reported by `./check` | machinery change it prompted |\n|---|---|---|---|")
